@@ -60,12 +60,14 @@ type leakCase struct {
 	CloseFailKinds int
 	// every cycle a second task closes the cycle's scope while the first creates a child on it
 	RaceParentClose bool
+	// every 5th cycle the scope is created on a context that has already been cancelled
+	PreCancelled bool
 }
 
 func (c *leakCase) Describe() map[string]any {
 	return map[string]any{"engine": "leak-sim", "cycles": c.N, "nesting": c.Nest, "creation_context": []string{"long-lived caller context", "nil ctx on long-lived parent scope", "background"}[c.ParentKind],
 		"initializer_fails_every": c.FailEvery, "failing_initializer": c.FailPos, "close_by_cancel_every_7th": c.UseWatcher, "double_close": c.Double,
-		"child_creation_races_with_close_of_the_scope": c.RaceParentClose, "instance_close_fails_every": c.CloseFailEvery, "failing_close_kinds(1=scoped,2=transient)": c.CloseFailKinds}
+		"child_creation_races_with_close_of_the_scope": c.RaceParentClose, "every_5th_scope_created_on_a_cancelled_context": c.PreCancelled, "instance_close_fails_every": c.CloseFailEvery, "failing_close_kinds(1=scoped,2=transient)": c.CloseFailKinds}
 }
 
 func decodeLeakCase(tier string, idx int, tape *Tape) *leakCase {
@@ -93,6 +95,7 @@ func decodeLeakCase(tier string, idx int, tape *Tape) *leakCase {
 		c.CloseFailEvery = 1 + tape.Choose(StFault, 3)
 		c.CloseFailKinds = 1 + tape.Choose(StFault, 3)
 	}
+	c.PreCancelled = tape.Choose(StOps, 3) == 0
 	if tape.Choose(StOps, 4) == 0 {
 		c.RaceParentClose = true
 		if c.N > 100 {
@@ -222,6 +225,28 @@ func (e *leakEngine) exec(c *leakCase, tape *Tape) *RunOut {
 			if byCancel {
 				own = h.newCtx(callerCtx, nil, nil)
 				ctx = own
+			}
+			if c.PreCancelled && i%5 == 2 && !byCancel && !r.failNow {
+				// the caller's context is already done: the watcher fires the moment it exists, possibly
+				// before the creation has finished registering the scope anywhere
+				pre := h.newCtx(callerCtx, nil, nil)
+				pre.Cancel()
+				ps, err := base.CreateScope(pre)
+				r.failNow = false
+				if err == nil {
+					r.weakScp = append(r.weakScp, weakScope(ps))
+					ps.Get(reflect.TypeOf((*leakTransient)(nil)))
+					simrt.Settle(siteWait)
+					if _, err := ps.Get(reflect.TypeOf((*leakScoped)(nil))); !errors.Is(err, godi.ErrScopeDisposed) {
+						add("C13.cancel", "leak-engine/pre-cancelled", "cycle %d: scope created on an already cancelled context is still usable after every task settled: %v", i, err)
+						r.vs[len(r.vs)-1].Prop = "C13"
+					}
+					ps = nil
+				} else if !errors.Is(err, godi.ErrScopeDisposed) && !errors.Is(err, context.Canceled) && !errors.Is(err, errInitFail) {
+					add("C14.setup", "create-precancelled", "cycle %d: CreateScope on a cancelled context failed with %v", i, err)
+				}
+				out.Reach["created-on-cancelled-context"]++
+				continue
 			}
 			s, err := base.CreateScope(ctx)
 			r.failNow = false
